@@ -105,7 +105,7 @@ func lemmaUnit(ld *Loader, cs *ContractSet, l *Lemma) (u *Unit) {
 	}
 	t := env.boolExpr(body)
 	g.seq++
-	o := &Oblig{Name: "lemma#" + l.Name, Kind: "lemma", Func: "lemma " + l.Name, Pos: ld.fset.Position(0), seq: g.seq, reach: "true", goal: t, Clause: l.Src}
+	o := &Oblig{Name: "lemma#" + l.Name, Kind: "lemma", Func: "lemma " + l.Name, Pos: ld.fset.Position(0), seq: g.seq, reach: "true", goal: t, Clause: l.Src, blk: -1}
 	o.Pos.Filename, o.Pos.Line = l.File, l.Line
 	g.obligs = append(g.obligs, o)
 	u.g = g
